@@ -66,6 +66,19 @@ def segmentNameZ (z : Zone) (c : Calc) (t : Int) : String :=
   | .month => pad 4 d.1 ++ pad 2 d.2.1
   | .year => pad 4 d.1
 
+/-- a zone given by its initial offset and its transitions `(UTC second, new offset)` in ascending
+order. `offLocal` is `time.Date`'s resolution: look the wall-clock second up as if it were UTC; if the
+instant obtained with that offset lies in another period of the zone, use the offset in force at that
+instant instead. -/
+def Zone.ofTransitions (off0 : Int) (trs : List (Int × Int)) : Zone :=
+  let offAt : Int → Int := fun s => trs.foldl (fun acc p => if p.1 ≤ s then p.2 else acc) off0
+  let period : Int → Nat := fun s => (trs.filter (fun p => p.1 ≤ s)).length
+  { offUTC := offAt
+    offLocal := fun w =>
+      let o1 := offAt w
+      let u := w - o1
+      if period u = period w then o1 else offAt u }
+
 /-- a zone with one transition: offset `before` until the UTC second `at` (exclusive), `after` from
 then on; `time.Date` resolves a wall-clock second with the offset of the side it falls on (the
 wall-clock seconds used here are midnights away from the transition hour) -/
@@ -75,5 +88,8 @@ def Zone.oneTransition (before after at_ : Int) : Zone :=
 
 /-- America/New_York around 2024-11-03: EDT (−4 h) until 06:00:00Z, then EST (−5 h) -/
 def Zone.newYorkFall2024 : Zone := Zone.oneTransition (-14400) (-18000) 1730613600
+
+/-- Australia/Lord_Howe around 2024-04-07: LHDT (+11 h) until 15:00:00Z Apr 6, then LHST (+10:30) -/
+def Zone.lordHoweApr2024 : Zone := Zone.ofTransitions 39600 [(1712415600, 37800)]
 
 end LinVerif.Interval
